@@ -907,6 +907,8 @@ def _cause(clause, events, line):
         o = ev["o"]["k"] if ev["ev"] == "BulkReq" else ev.get("o", "")
         return "records are neither buffered nor indexed after a flush/close that %s%s" % (ev["st"]["last"]["k"], " on " + o if o else "")
     kinds = {e["o"]["k"] for e in events[:line] if e["ev"] == "BulkReq"} - {"ok"}
+    if ev["ev"] not in ("BulkReq", "RefreshReq"):
+        return "at %s%s" % (ev["ev"], " clear=%s" % ev["clear"] if ev["ev"] == "Ext" else "")
     return "%s; faults so far: %s" % (ev["ev"], ",".join(sorted(kinds)) or "none")
 
 
